@@ -14,6 +14,7 @@ import base64
 import json
 import pickle
 import random
+import threading
 import types
 from typing import Any
 
@@ -172,8 +173,11 @@ def run_case(sc, opts):
             async def set_result(self, tid, r):
                 i = idx(tid)
                 log.add("save", i)
-                if sc["msgs"][i].get("save_fail"):
-                    await afail(i, "backend down")
+                try:
+                    if sc["msgs"][i].get("save_fail"):
+                        await afail(i, "backend down")
+                finally:
+                    log.add("save.end", i)       # the attempt to store the result has COMPLETED (stored or failed)
 
             async def is_result_ready(self, t):
                 return True
@@ -528,8 +532,8 @@ def run_case(sc, opts):
         box["shown"] = shown
 
         A = sc["A"]
-        if sc.get("cli") is not None:
-            # configuration through the real command-line path (harness/cli_glue.py)
+        if sc.get("cli") is not None or sc.get("api") is not None:
+            # configuration through the real command-line path / through the real run_receiver_task (harness/cli_glue.py)
             r = Receiver(br, run_startup=False, **box["cli_kw"])
         else:
             r = Receiver(br, max_async_tasks=A, max_prefetch=sc["P"], max_tasks_to_execute=sc["N"], run_startup=False,
@@ -539,6 +543,19 @@ def run_case(sc, opts):
         ev = shims.make_event(log)
         if sc.get("stop_us") is not None:
             loop.call_later(sc["stop_us"] / 1e6, ev.set)
+        so = sc.get("stop_on")
+        if so:
+            # a stop request placed relative to something that happens in the run: `plus_us` after the first raw-log entry
+            # (tag, msg) - e.g. while message i's body is handling its cancellation
+            plain_add, main_thread = log.add, threading.current_thread()
+
+            def add(tag, a=None, b=None):
+                plain_add(tag, a, b)
+                if tag == so["tag"] and a == so["msg"] and not box.get("so_armed") and threading.current_thread() is main_thread:
+                    box["so_armed"] = True
+                    loop.call_later(so.get("plus_us", 0) / 1e6, lambda: ev.is_set() or ev.set())
+
+            log.add = add
         hz = sc["horizon_us"] / 1e6
         loop.call_later(hz - 0.001, lambda: log.add("CUTMARK"))
         try:
@@ -557,6 +574,16 @@ def run_case(sc, opts):
         # before the virtual loop exists: start_listen runs its own (throw-away) loop; the keyword arguments it
         # hands to the receiver type do not depend on the broker object
         box["cli_kw"] = cli_glue.receiver_kwargs_via_cli(sc["cli"], InMemoryBroker())
+    elif sc.get("api") is not None:
+        import cli_glue
+        from taskiq import InMemoryBroker
+        # the programmatic path: the real taskiq.api.run_receiver_task builds the receiver (run_receiver_task has no
+        # max_tasks_to_execute / wait_tasks_timeout parameter: such scenarios are never given this path)
+        assert sc["N"] is None and sc.get("wtt_us") is None, "scenario: run_receiver_task cannot express N / wait_tasks_timeout"
+        akw = dict(sc["api"])
+        if akw.get("ack_time") is not None:
+            akw["ack_time"] = AcknowledgeType(akw["ack_time"])
+        box["cli_kw"] = cli_glue.receiver_kwargs_via_api(akw, InMemoryBroker())
     try:
         log = vloop.run(main)
     finally:
